@@ -10,7 +10,7 @@ def head_word(cd):
 def run(run, replay=None):
     run.assumptions += ["learned counts are 'transported' across contexts by registering the same count in both contexts "
                         "(counts are keyed by context, C06)"]
-    run.regenerate(["Kkc", "Dic"])
+    run.regenerate(["Kkc", "Dic", "Server"])
     if run.build_props():
         run.audit()
     results, dis, cases = K.run_cases(run)
